@@ -41,6 +41,7 @@ def run(idx, rep, tier):
     rep.rule("R6", "one track_line per reader line; LineMonitor counters")
     rep.rule("R7", "Variable.to_value/matches tables")
     rep.rule("R8", "assignment write column (docs/assignment.md)")
+    rep.rule("R9", "aggregates over a sequence of lines: every, tally, sum, counter hold the documented bookkeeping")
     r1(idx, rep)
     r2(idx, rep)
     r3(idx, rep)
@@ -49,6 +50,7 @@ def run(idx, rep, tier):
     r6(idx, rep)
     r7(idx, rep)
     r8(idx, rep)
+    r9(idx, rep)
     rep.stats["exhaustive"] = True
 
 
@@ -485,3 +487,70 @@ def r8(idx, rep):
 
     c14.r1(idx, Proxy(rep), "quick")
     c14.r2(idx, Proxy(rep))
+
+
+def _lines_program(idx, cls, method, per_line, setup):
+    """interpret cls.method once per line (resetting the per-line value) on one variable store; returns the store and the values"""
+    fi = idx.method(cls, method)
+
+    def program(it):
+        vals = []
+        for line in per_line:
+            setup(it, line)
+            it.store["self.value"] = None
+            it.call_function(fi, {"skip": []}, "self")
+            vals.append(it.store.get("self.value"))
+        return vals
+
+    return fi, program
+
+
+def r9(idx, rep):
+    C = FM.Child
+    # ---- every(#a, 2): per distinct value, true on every 2nd sighting; bookkeeping under the qualifier name
+    seq = ["x", "x", "y", "x", "y", "x"]
+    cur = {}
+
+    def setup_every(it, line):
+        cur["v"] = line
+
+    it, st = _var_interp(idx, "Every", children=[C("eq", left=C("l", value=None), right=C("r", value=2))],
+                         extra_handlers={"self.me": lambda i, c, r, a, k: "ev"})
+    it.handlers[".to_value"] = lambda i, c, r, a, k: cur["v"] if r.name == "l" else 2
+    fi, program = _lines_program(idx, "Every", "_produce_value", seq, setup_every)
+    rep.analysed(fi)
+    ps = it.run_program(program, st)
+    want_vals = []
+    cnt = {}
+    for v in seq:
+        cnt[v] = cnt.get(v, 0) + 1
+        want_vals.append(cnt[v] % 2)
+    ok = len(ps) == 1 and ps[0].result == ("return", want_vals) and ps[0].final_store[VARS].get("ev") == cnt
+    rep.check(ok, "R9", f"{fi.file}::Every sequence table", f"values {ps[0].result[1] if ps else None} / store {ps[0].final_store[VARS].get('ev') if ps else None}; documented {want_vals} / {cnt}", K.where(fi, fi.node))
+    # ---- tally(#a): count per value under tally_<name>
+    it, st = _var_interp(idx, "Tally", extra_handlers={"self.siblings": lambda i, c, r, a, k: [Obj("h")], "self.first_non_term_qualifier": lambda i, c, r, a, k: a[0] if a else None},
+                         store={"h.name": "color"})
+    it.handlers[".to_value"] = lambda i, c, r, a, k: cur["v"]
+    ft, program = _lines_program(idx, "Tally", "_produce_value", ["red", "blue", "red", "", "red"], setup_every)
+    it.inline |= {"Tally._store"}
+    rep.analysed(ft)
+    ps = it.run_program(program, st)
+    got = ps[0].final_store[VARS].get("tally_color") if len(ps) == 1 else None
+    rep.check(got == {"red": 3, "blue": 1}, "R9", f"{ft.file}::Tally sequence table", f"tally_color = {got}; documented {{'red': 3, 'blue': 1}} (blank values are not tallied)", K.where(ft, ft.node))
+    # ---- sum(#n): running sum
+    it, st = _var_interp(idx, "Sum", children=[C("c0", value=None)], extra_handlers={"self.first_non_term_qualifier": lambda i, c, r, a, k: a[0] if a else None},
+                         store={"self.name": "sum"})
+    it.handlers[".to_value"] = lambda i, c, r, a, k: cur["v"]
+    fsu, program = _lines_program(idx, "Sum", "_produce_value", ["1", "2.5", None, "", "4"], setup_every)
+    rep.analysed(fsu)
+    ps = it.run_program(program, st)
+    ok = len(ps) == 1 and ps[0].result == ("return", [1.0, 3.5, 3.5, 3.5, 7.5]) and ps[0].final_store[VARS].get("sum") == 7.5
+    rep.check(ok, "R9", f"{fsu.file}::Sum sequence table", f"{ps[0].result if ps else None}, store {ps[0].final_store[VARS].get('sum') if ps else None}; documented running sum [1.0, 3.5, 3.5, 3.5, 7.5]", K.where(fsu, fsu.node))
+    # ---- counter(n): click counter
+    it, st = _var_interp(idx, "Counter", extra_handlers={"self.first_non_term_qualifier": lambda i, c, r, a, k: "clicks", "self.get_id": lambda i, c, r, a, k: "id",
+                                                        "self._value_one": lambda i, c, r, a, k: cur["v"]})
+    fco, program = _lines_program(idx, "Counter", "_produce_value", [None, None, 5, "2", None], setup_every)
+    rep.analysed(fco)
+    ps = it.run_program(program, st)
+    ok = len(ps) == 1 and ps[0].result == ("return", [1, 2, 7, 9, 10]) and ps[0].final_store[VARS].get("clicks") == 10
+    rep.check(ok, "R9", f"{fco.file}::Counter sequence table", f"{ps[0].result if ps else None}; documented [1, 2, 7, 9, 10]", K.where(fco, fco.node))
